@@ -5,7 +5,9 @@
 (* A manager has a fixed array of stripes (mutexes).  Acquire hashes every key to a       *)
 (* stripe, drops duplicates, sorts the stripe indices and locks them one after the other *)
 (* (each Lock is one step and blocks while the stripe is held); Release unlocks them all  *)
-(* and forgets them, so a second Release does nothing.                                   *)
+(* and forgets them, so a second Release does nothing - neither immediately (Release2)   *)
+(* nor at any later time (Late), when other requests may hold the same stripes.          *)
+(* A Lock on a held stripe waits (Wait) and proceeds when the holder unlocks.            *)
 (*                                                                                       *)
 (* Deviation "EmptyKeyUnlatched" (tree before the fix: commit): keys of length 0 are     *)
 (* skipped, so two requests that share the empty key do not exclude each other.          *)
@@ -17,6 +19,7 @@ CONSTANTS Requests,     \* e.g. {1,2,3}
           NStripes,
           KeySets,      \* the key sets a request may ask for (Init picks one per request)
           Deviations,
+          LateReleasers, \* requests that call Release once more at some later time (after others may have acquired)
           MaxHist, MaxPre
 
 Stripes == 0..(NStripes - 1)
@@ -45,10 +48,11 @@ define {
   Acquired(r) == r \in holding
 }
 
+
 macro Log(x) {
   if (Len(hist) < MaxHist) {
     hist := Append(hist, x);
-    pre := IF last # 0 /\ last # x /\ pc[last] # "Done" THEN pre + 1 ELSE pre;
+    pre := IF last # 0 /\ last # x /\ (pc[last] # "Done" /\ pc[last] # "Wait") THEN pre + 1 ELSE pre;
     last := x;
   }
 }
@@ -61,10 +65,16 @@ Compute:                                            \* hash, de-duplicate, sort
   Log(self);
 Lock:
   while (i <= Len(slots)) {
-    await owner[slots[i]] = 0;                      \* sync.Mutex.Lock
-    owner[slots[i]] := self;
-    i := i + 1;
-    Log(self);
+    if (owner[slots[i]] = 0) {                      \* sync.Mutex.Lock on a free stripe
+      owner[slots[i]] := self;
+      i := i + 1;
+      Log(self);
+    } else {
+      Log(self);                                    \* the stripe is held: the request sleeps inside Lock
+Wait: await owner[slots[i]] = 0;                    \* ... and is woken when the holder unlocks
+      owner[slots[i]] := self;
+      i := i + 1;
+    }
   };
 Holding:                                            \* Acquire returned the guard
   clash := clash \/ \E r \in holding : keys[r] \cap keys[self] # {};
@@ -76,6 +86,8 @@ Release:
   Log(self);
 Release2:                                           \* a second Release finds no slots: nothing happens
   skip;
+Late:                                               \* ... and so does one that comes any time later
+  if (self \in LateReleasers) { Log(self) };
 }
 } *)
 \* BEGIN TRANSLATION
@@ -109,7 +121,7 @@ Compute(self) == /\ pc[self] = "Compute"
                  /\ slots' = [slots EXCEPT ![self] = SortedSeq(SlotSet(keys[self]))]
                  /\ IF Len(hist) < MaxHist
                        THEN /\ hist' = Append(hist, self)
-                            /\ pre' = (IF last # 0 /\ last # self /\ pc[last] # "Done" THEN pre + 1 ELSE pre)
+                            /\ pre' = (IF last # 0 /\ last # self /\ (pc[last] # "Done" /\ pc[last] # "Wait") THEN pre + 1 ELSE pre)
                             /\ last' = self
                        ELSE /\ TRUE
                             /\ UNCHANGED << hist, last, pre >>
@@ -118,19 +130,34 @@ Compute(self) == /\ pc[self] = "Compute"
 
 Lock(self) == /\ pc[self] = "Lock"
               /\ IF i[self] <= Len(slots[self])
-                    THEN /\ owner[slots[self][i[self]]] = 0
-                         /\ owner' = [owner EXCEPT ![slots[self][i[self]]] = self]
-                         /\ i' = [i EXCEPT ![self] = i[self] + 1]
-                         /\ IF Len(hist) < MaxHist
-                               THEN /\ hist' = Append(hist, self)
-                                    /\ pre' = (IF last # 0 /\ last # self /\ pc[last] # "Done" THEN pre + 1 ELSE pre)
-                                    /\ last' = self
-                               ELSE /\ TRUE
-                                    /\ UNCHANGED << hist, last, pre >>
-                         /\ pc' = [pc EXCEPT ![self] = "Lock"]
+                    THEN /\ IF owner[slots[self][i[self]]] = 0
+                               THEN /\ owner' = [owner EXCEPT ![slots[self][i[self]]] = self]
+                                    /\ i' = [i EXCEPT ![self] = i[self] + 1]
+                                    /\ IF Len(hist) < MaxHist
+                                          THEN /\ hist' = Append(hist, self)
+                                               /\ pre' = (IF last # 0 /\ last # self /\ (pc[last] # "Done" /\ pc[last] # "Wait") THEN pre + 1 ELSE pre)
+                                               /\ last' = self
+                                          ELSE /\ TRUE
+                                               /\ UNCHANGED << hist, last, pre >>
+                                    /\ pc' = [pc EXCEPT ![self] = "Lock"]
+                               ELSE /\ IF Len(hist) < MaxHist
+                                          THEN /\ hist' = Append(hist, self)
+                                               /\ pre' = (IF last # 0 /\ last # self /\ (pc[last] # "Done" /\ pc[last] # "Wait") THEN pre + 1 ELSE pre)
+                                               /\ last' = self
+                                          ELSE /\ TRUE
+                                               /\ UNCHANGED << hist, last, pre >>
+                                    /\ pc' = [pc EXCEPT ![self] = "Wait"]
+                                    /\ UNCHANGED << owner, i >>
                     ELSE /\ pc' = [pc EXCEPT ![self] = "Holding"]
                          /\ UNCHANGED << owner, hist, last, pre, i >>
               /\ UNCHANGED << keys, holding, clash, slots >>
+
+Wait(self) == /\ pc[self] = "Wait"
+              /\ owner[slots[self][i[self]]] = 0
+              /\ owner' = [owner EXCEPT ![slots[self][i[self]]] = self]
+              /\ i' = [i EXCEPT ![self] = i[self] + 1]
+              /\ pc' = [pc EXCEPT ![self] = "Lock"]
+              /\ UNCHANGED << keys, holding, clash, hist, last, pre, slots >>
 
 Holding(self) == /\ pc[self] = "Holding"
                  /\ clash' = (clash \/ \E r \in holding : keys[r] \cap keys[self] # {})
@@ -144,7 +171,7 @@ Release(self) == /\ pc[self] = "Release"
                  /\ slots' = [slots EXCEPT ![self] = <<>>]
                  /\ IF Len(hist) < MaxHist
                        THEN /\ hist' = Append(hist, self)
-                            /\ pre' = (IF last # 0 /\ last # self /\ pc[last] # "Done" THEN pre + 1 ELSE pre)
+                            /\ pre' = (IF last # 0 /\ last # self /\ (pc[last] # "Done" /\ pc[last] # "Wait") THEN pre + 1 ELSE pre)
                             /\ last' = self
                        ELSE /\ TRUE
                             /\ UNCHANGED << hist, last, pre >>
@@ -153,12 +180,25 @@ Release(self) == /\ pc[self] = "Release"
 
 Release2(self) == /\ pc[self] = "Release2"
                   /\ TRUE
-                  /\ pc' = [pc EXCEPT ![self] = "Done"]
+                  /\ pc' = [pc EXCEPT ![self] = "Late"]
                   /\ UNCHANGED << owner, keys, holding, clash, hist, last, pre, 
                                   slots, i >>
 
-req(self) == Compute(self) \/ Lock(self) \/ Holding(self) \/ Release(self)
-                \/ Release2(self)
+Late(self) == /\ pc[self] = "Late"
+              /\ IF self \in LateReleasers
+                    THEN /\ IF Len(hist) < MaxHist
+                               THEN /\ hist' = Append(hist, self)
+                                    /\ pre' = (IF last # 0 /\ last # self /\ (pc[last] # "Done" /\ pc[last] # "Wait") THEN pre + 1 ELSE pre)
+                                    /\ last' = self
+                               ELSE /\ TRUE
+                                    /\ UNCHANGED << hist, last, pre >>
+                    ELSE /\ TRUE
+                         /\ UNCHANGED << hist, last, pre >>
+              /\ pc' = [pc EXCEPT ![self] = "Done"]
+              /\ UNCHANGED << owner, keys, holding, clash, slots, i >>
+
+req(self) == Compute(self) \/ Lock(self) \/ Wait(self) \/ Holding(self)
+                \/ Release(self) \/ Release2(self) \/ Late(self)
 
 (* Allow infinite stuttering to prevent deadlock on termination. *)
 Terminating == /\ \A self \in ProcSet: pc[self] = "Done"
@@ -176,12 +216,12 @@ Termination == <>(\A self \in ProcSet: pc[self] = "Done")
 
 \* deadlock freedom: TLC's deadlock check (the translation adds the terminating self-loop);
 \* every acquisition eventually succeeds (weak fairness per request, no state constraint)
-EventuallyAcquired == \A r \in Requests : <>(pc[r] \in {"Release", "Release2", "Done"})
+EventuallyAcquired == \A r \in Requests : <>(pc[r] \in {"Release", "Release2", "Late", "Done"})
 
 \* key-set families used by the cfgs
 AllKeySets   == SUBSET Keys
 SmallKeySets == SUBSET {"A", "B", "D", "E"}
-QuickKeySets == {{}, {"A"}, {"B"}, {"A", "B"}, {"A", "D"}, {"B", "D"}, {"E"}, {"E", "B"}}
+QuickKeySets == {{}, {"A"}, {"B"}, {"A", "B"}, {"A", "D"}, {"E"}, {"E", "B"}}
 PlainKeySets == SUBSET {"A", "B", "C"}
 TwoKeySets   == SUBSET {"A", "B"}
 Gen2KeySets  == (SUBSET {"A", "B", "C"}) \cup {{"D"}, {"A", "D"}, {"E"}, {"E", "B"}}
@@ -191,7 +231,11 @@ PairKeySets  == {{"A", "B"}, {"B", "C"}, {"A", "C"}, {"A", "B", "C"}, {"D"}, {"E
 
 \* ---- behaviour generation ------------------------------------------------------------
 \* "Holding" is not a gate of its own: Acquire returns and the driver parks the request there
-Uncontrolled(p) == pc[p] = "Holding" \/ (pc[p] = "Lock" /\ i[p] > Len(slots[p]))
+\* not gates: the arrival at Holding, a woken waiter taking its stripe, the step from Release2 to the Late gate
+\* (an immediate second Release), and the Late step of a request that does not release late
+Uncontrolled(p) == \/ pc[p] = "Holding" \/ (pc[p] = "Lock" /\ i[p] > Len(slots[p]))
+                   \/ (pc[p] = "Wait" /\ owner[slots[p][i[p]]] = 0)
+                   \/ pc[p] = "Release2" \/ (pc[p] = "Late" /\ p \notin LateReleasers)
 GateGrain == \A p \in Requests : Uncontrolled(p) => pc'[p] # pc[p]
 PreBound == pre <= MaxPre
 AllDone == \A p \in Requests : pc[p] = "Done"
